@@ -38,11 +38,16 @@ func main() {
 			{Cfg: netsim.Config{Name: "4x1-byz-proposer-height2", Powers: []int64{1, 1, 1, 1}, ByzProposer: true, ByzTurn: 2, ByzMenu: true, TargetHeight: 2, MaxRound: 4, MaxSteps: 800}, Bound: imax(1, b-1)},
 		}
 	}
+	// correct nodes may be restarted (real WAL, real catch-up replay): no conflicting signature across a restart
+	scen = append(scen, netsim.Scenario{Cfg: netsim.Config{Name: "4x1-restarts", Powers: []int64{1, 1, 1, 1}, Byz: []int{3}, ByzMenu: true, ByzVariants: []string{"A", "B"}, Restarts: true, TargetHeight: 2, MaxRound: 4, MaxSteps: 1000}, Bound: b - 1})
 	scen = append(scen, netsim.Scenario{Cfg: netsim.Config{Name: "7x1-two-byz", Powers: []int64{1, 1, 1, 1, 1, 1, 1}, Byz: []int{5, 6}, ByzMenu: true, ByzVariants: []string{"A", "B"}, TargetHeight: 1, MaxRound: 4, MaxSteps: 1000}, Bound: b - 1})
 	scen = append(scen, netsim.Scenario{Cfg: netsim.Config{Name: "4x1-valset-change", Powers: []int64{1, 1, 1, 1}, Byz: []int{3}, ByzMenu: true, TargetHeight: 5, MaxRound: 4, MaxSteps: 2000,
 		ValScript: map[uint64][]int64{1: {1, 3, 1, 1}, 2: {1, 3, 1, 0}}}, Bound: b - 1})
 	for _, turn := range []int{2, 3} {
 		scen = append(scen, netsim.Scenario{Cfg: netsim.Config{Name: fmt.Sprintf("solo-turn%d-arrival-orders", turn), Powers: []int64{1, 1, 1, 1}, SoloTurn: turn, Driver: "orders", TargetHeight: 1, MaxRound: 8, MaxSteps: 1500}, Bound: 0})
+	}
+	for _, turn := range []int{2, 3} {
+		scen = append(scen, netsim.Scenario{Cfg: netsim.Config{Name: fmt.Sprintf("solo-turn%d-arrival-orders-own-precommit-needed", turn), Powers: []int64{1, 1, 1, 1}, SoloTurn: turn, Driver: "orders-weak", TargetHeight: 1, MaxRound: 8, MaxSteps: 1500}, Bound: 0})
 	}
 	scen = append(scen, netsim.Scenario{Cfg: netsim.Config{Name: "4x1-lock-split", Powers: []int64{1, 1, 1, 1}, Byz: []int{3}, ByzMenu: true, Driver: "lock-split", TargetHeight: 1, MaxRound: 5, MaxSteps: 500}, Bound: b - 1})
 	scen = append(scen, netsim.Scenario{Cfg: netsim.Config{Name: "4x1-late-polka", Powers: []int64{1, 1, 1, 1}, Byz: []int{3}, ByzMenu: true, Driver: "late-polka", TargetHeight: 1, MaxRound: 6, MaxSteps: 600}, Bound: b - 1})
